@@ -172,14 +172,15 @@ Loads ==
     /\ outcome' \in AllowedV(soup)
     /\ UNCHANGED <<soup, prev, rets, muts, base, rtype>>
 
-SpliceMax   == IF Mode = "mutw" THEN 8 ELSE 3
-DonorLen(d) == IF Mode = "mutw" THEN N ELSE Len(CanonDocs[d])
-\* the donor segment of length l starting at a: class level = a piece of another canonical document,
-\* index level = ids N+a .. N+a+l-1 (tokens of the donor window)
-Donor(d, a, l) == IF Mode = "mutw" THEN [x \in 1..l |-> N + a + x - 1] ELSE SubSeq(CanonDocs[d], a, a + l - 1)
+SpliceMax == IF Mode = "mutw" THEN 8 ELSE 3
+\* donor segments.  Class level: every piece (1..3 classes) of a canonical document; index level:
+\* ids N+a .. N+a+l-1, a run of tokens of the donor window
+ClassSegs  == UNION {{SubSeq(CanonDocs[d], a, a + l - 1) : a \in 1..(Len(CanonDocs[d]) - l + 1)} :
+                       d \in 1..Len(CanonDocs), l \in 1..SpliceMax}
+IndexSeg(a, l) == [x \in 1..l |-> N + a + x - 1]
 
-\* one mutation; i, j positions in the sequence, k an insertion point 0..Len
-ApplyMut(op, i, j, k, d, a, l) ==
+\* one mutation; i, j positions in the sequence, k an insertion point 0..Len, seg the donor piece
+ApplyMut(op, i, j, k, seg) ==
     CASE op = "delete"    -> /\ SetSoup(DeleteAt(soup, i))
                              /\ muts' = Append(muts, [op |-> op, i |-> i])
       [] op = "duplicate" -> /\ SetSoup(DuplicateAt(soup, i))
@@ -191,8 +192,8 @@ ApplyMut(op, i, j, k, d, a, l) ==
       [] op = "break"     -> /\ SetSoup([soup EXCEPT ![i] = IF Mode = "mutw" THEN (IF @ < BrokenBase THEN @ + BrokenBase ELSE @)
                                                                   ELSE BreakClass(@)])
                              /\ muts' = Append(muts, [op |-> op, i |-> i])
-      [] op = "splice"    -> /\ SetSoup(SpliceAt(soup, k, Donor(d, a, l)))
-                             /\ muts' = Append(muts, [op |-> op, i |-> k, d |-> d, j |-> a, l |-> l])
+      [] op = "splice"    -> /\ SetSoup(SpliceAt(soup, k, seg))
+                             /\ muts' = Append(muts, [op |-> op, i |-> k, seg |-> seg])
 
 MutOps == {"delete", "duplicate", "swap", "truncate", "splice", "break"}
 
@@ -201,18 +202,18 @@ Mutate ==
     /\ outcome = "none"
     /\ Len(muts) < MaxMut
     /\ Len(soup) > 0
+    /\ (muts # <<>> => muts[1].op # "splice")
     /\ \E op \in MutOps, i \in 1..Len(soup) :
          \/ /\ op \in {"delete", "duplicate", "truncate"}
-            /\ ApplyMut(op, i, i, 0, 1, 1, 1)
+            /\ ApplyMut(op, i, i, 0, <<>>)
          \/ /\ op = "break"
             /\ BreakClass(soup[i]) # soup[i]
-            /\ ApplyMut(op, i, i, 0, 1, 1, 1)
+            /\ ApplyMut(op, i, i, 0, <<>>)
          \/ /\ op = "swap"
-            /\ \E j \in (i + 1)..Len(soup) : soup[i] # soup[j] /\ ApplyMut(op, i, j, 0, 1, 1, 1)
+            /\ \E j \in (i + 1)..Len(soup) : soup[i] # soup[j] /\ ApplyMut(op, i, j, 0, <<>>)
          \/ /\ op = "splice"
             /\ muts = <<>>
-            /\ \E k \in {i - 1, Len(soup)}, d \in 1..Len(CanonDocs), l \in 1..SpliceMax :
-                 \E a \in 1..(DonorLen(d) - l + 1) : ApplyMut(op, i, i, k, d, a, l)
+            /\ \E k \in {i} \cup (IF i = 1 THEN {0} ELSE {}), seg \in ClassSegs : ApplyMut(op, i, i, k, seg)
     /\ UNCHANGED <<outcome, base, rtype>>
 
 \* simulation: one random successor per step (bound variables are drawn once)
@@ -224,10 +225,9 @@ RandMutate ==
     /\ Len(soup) > 1
     /\ \E op \in {RandomElement(MutOps \cup {"splice2"})},
           i \in {RandomElement(1..Len(soup))}, j \in {RandomElement(1..Len(soup))},
-          k \in {RandomElement(0..Len(soup))}, l \in {RandomElement(1..SpliceMax)},
-          d \in {RandomElement(1..Len(CanonDocs))} :
-         \E a \in {RandomElement(1..(DonorLen(d) - l + 1))} :
-            ApplyMut(IF op = "splice2" THEN "splice" ELSE op, i, j, k, d, a, l)
+          k \in {RandomElement(0..Len(soup))}, l \in {RandomElement(1..SpliceMax)} :
+         \E seg \in {IF Mode = "mutw" THEN IndexSeg(RandomElement(1..(N - l + 1)), l) ELSE RandomElement(ClassSegs)} :
+            ApplyMut(IF op = "splice2" THEN "splice" ELSE op, i, j, k, seg)
     /\ UNCHANGED <<outcome, base, rtype>>
 
 Init ==
